@@ -404,6 +404,21 @@ pub fn gen_case(g: &mut G, corpus: &[String], cfg: &GenCfg) -> Case {
         t.push_str(&format!("char v;\nvoid main()\n{{\n  v = K{} + K{};\n}}\n", 10 + g.below(60), 90 + g.below(5)));
         return Case { text: t, opt: g.below(4) as u8, mutations: muts };
     }
+    if g.chance(1, 150) {
+        // deep nesting (the parser and the generator are recursive): 50 to 500 levels, far below the
+        // few thousand levels at which the unchanged compiler runs out of stack (known finding)
+        let n = 50 + g.below(451);
+        let (kind, text) = match g.below(7) {
+            0 => ("parentheses", format!("char x;\nvoid main()\n{{\n  x = {}1{};\n}}\n", "(".repeat(n), ")".repeat(n))),
+            1 => ("blocks", format!("char x;\nvoid main()\n{} x = 1; {}\n", "{".repeat(n), "}".repeat(n))),
+            2 => ("if statements", format!("char x;\nvoid main()\n{{ {} x = 1; }}\n", "if (x) ".repeat(n))),
+            3 => ("logical negations", format!("char x;\nvoid main()\n{{ x = {}x; }}\n", "!".repeat(n))),
+            4 => ("while loops", format!("char x;\nvoid main()\n{{ {} x = 1; }}\n", "while (x) ".repeat(n))),
+            5 => ("subscripts", format!("char x; char t[4];\nvoid main()\n{{ x = {}0{}; }}\n", "t[".repeat(n.min(120)), "]".repeat(n.min(120)))),
+            _ => ("constant parentheses", format!("const char k = {}1{};\nvoid main()\n{{\n}}\n", "(".repeat(n), ")".repeat(n))),
+        };
+        return Case { text, opt: g.below(4) as u8, mutations: vec![format!("{} levels of nested {}", n, kind)] };
+    }
     let base = if !corpus.is_empty() && g.chance(1, 3) {
         corpus[g.below(corpus.len())].clone()
     } else {
@@ -517,6 +532,9 @@ pub struct Known {
 
 pub fn check(case: &Case, st: &mut Stats, known: &Known) -> Result<(), String> {
     st.count("inputs");
+    if case.mutations.iter().any(|m| m.contains("levels of nested")) {
+        st.count("deep_nesting_inputs");
+    }
     if include_escapes(&case.text) {
         st.count("filtered:include_outside_sandbox");
         return Ok(());
@@ -625,6 +643,12 @@ pub fn load_known(prop: &str) -> (Known, Vec<String>) {
                 if f.property == prop {
                     seen.push(format!("{} {}", f.id, f.what_fails));
                 }
+            }
+        } else if let Some((true, _)) = replay_case(&repro) {
+            // a finding identified by its input alone (for instance one that kills the compiler process):
+            // nothing is excluded for it, generated inputs stay away from it by construction
+            if f.property == prop {
+                seen.push(format!("{} {}", f.id, f.what_fails));
             }
         }
     }
